@@ -349,6 +349,14 @@ struct C19 : Scenario {
 				case 4: { pat = full; for (auto &ch : pat) if (ch >= 'a' && ch <= 'z') { ch = (char)(ch - 32); break; } break; }
 				default: pat = "*" + full.substr(rng.below(full.size() + 1)); break;
 			}
+			// runs of stars, stars that must match the empty string, stars next to '?'
+			switch (rng.below(8)) {
+				case 0: pat += "**"; break;
+				case 1: pat = "**" + pat; break;
+				case 2: if (!pat.empty()) pat.insert(rng.below(pat.size() + 1), "*"); break;
+				case 3: if (pat.size() > 1) { size_t k = rng.below(pat.size()); pat = pat.substr(0, k) + "*" + pat.substr(k + 1) + "*"; } break;
+				default: break;
+			}
 			if (pat.empty()) pat = "*";
 			p.argv.push_back(pat);
 		}
